@@ -10,9 +10,13 @@ SPEC = {
     "level_text": (
         "Partial, with the full statement refuted by witnesses. Full statement (a program over X gives the same globals "
         "whether X is defined in the file or imported through subinclude) is refuted on the asp model by three "
-        "machine-checked witnesses (==, a builtin asserting pyList, a type switch), each a listed known finding. Proved "
-        "for all states and arguments: index, in, len, iteration, + (either side), list * int, and the dict operations "
-        "index / in / len / | (left) do not look at the frozen wrapper; == differs from the unfrozen comparison only "
+        "machine-checked witnesses (== on a list and on a dict, a builtin asserting pyList, a type switch; each states "
+        "which run succeeds and with what error the other fails), each a listed known finding. Proved "
+        "for all states and arguments: index, in, len, iteration, + with the frozen list on the left, list * int, and the "
+        "dict operations index / in / len / | (left) do not look at the frozen wrapper (pinned by the regenerated facts "
+        "that pyFrozenList embeds pyList and redefines only IndexAssign / MarshalJSON); + with the frozen list on the "
+        "right is the plain sum exactly when pyList.Operator has its pyFrozenList branch (regenerated fact "
+        "addAcceptsFrozen, C18_add_frozen_right; without it the sum fails); == differs from the unfrozen comparison only "
         "by the wrapper-type test; every builtin that the regenerated table marks as accepting frozen lists gets the "
         "same slice from the wrapper as from the plain list, every other one rejects it. The table itself "
         "(C18_table_today) is decided on the regenerated facts. map / filter / reduce / isinstance / % formatting are "
@@ -20,7 +24,7 @@ SPEC = {
     ),
     "technique": "finite regenerated table + one lifting lemma per assertion pattern (Lean) + differential local-vs-imported runs on the real interpreter",
     "trusted": [
-        "go/ast extractor harness/extract/c18 (setNativeCode table, per-function type assertions and pyFrozenList mentions, implementation of ==)",
+        "go/ast extractor harness/extract/c18 (setNativeCode table, per-function type assertions and pyFrozenList mentions, implementation of ==, the pyFrozenList branch of list +, the embedding and own methods of pyFrozenList)",
         "correspondence harness/cmd/c18 (asplib/c18.go): every application on locally defined and really subincluded values vs Driver/C18.lean",
         "modelled, not verified: Model/AspInterp.lean (builtins, asListFor, deepEq, sliceOp, unpack)",
         "class of a difference = the mechanism of the application that was run (named in the op line)",
